@@ -384,6 +384,10 @@ def benign_child_stderr(rng, plan, tids, p=0.5):
         acts = [{'ph': rng.choice(['setUp', 'body', 'tearDown']),
                  'do': 'write', 'stream': rng.choice(['fd2', '__stderr__']),
                  'text': rng.choice(BENIGN_STDERR)}]
+        if acts[0]['stream'] == 'fd2' and rng.random() < 0.25:
+            # a complete line that is not UTF-8
+            acts[0]['text'] = 'caf'
+            acts[0]['tail_hex'] = rng.choice(['e90a', 'fffe0a', '8081c30a'])
         if rng.random() < 0.3:
             acts.append({'ph': 'body', 'do': 'atexit_write',
                          'text': rng.choice(['late line\n', 'a b c\n',
